@@ -101,15 +101,44 @@ class Sample:
 
         return self.parameter_lists_for_paths(paths)
 
+    def value_for_key(self, key):
+        """
+        The value stored for a path or name.
+
+        A parameter held directly by the top level of a model has a path
+        with a single entry, which is stored as a plain string when samples
+        are loaded from a table or a summary. A one entry path and the
+        equivalent string are therefore treated as the same key, as are a
+        dotted name and the path obtained by splitting it.
+
+        Raises
+        ------
+        KeyError
+            If there is no value for the key in any of its forms
+        """
+        kwargs = self.kwargs
+        if key in kwargs:
+            return kwargs[key]
+        if isinstance(key, tuple):
+            if len(key) == 1 and key[0] in kwargs:
+                return kwargs[key[0]]
+        elif isinstance(key, str):
+            path = tuple(key.split("."))
+            if path in kwargs:
+                return kwargs[path]
+        raise KeyError(key)
+
     def parameter_lists_for_paths(self, paths):
         result = list()
         for keys in paths:
             is_found = False
             for key in keys:
-                if key in self.kwargs:
-                    result.append(self.kwargs[key])
+                try:
+                    result.append(self.value_for_key(key))
                     is_found = True
                     break
+                except KeyError:
+                    pass
             if not is_found:
                 raise KeyError(
                     f"Could not find any of the following keys in kwargs {keys}"
@@ -119,13 +148,11 @@ class Sample:
     @property
     def is_path_kwargs(self) -> bool:
         """
-        Are the keys in the kwargs dictionary tuples? If they
+        Are the keys in the kwargs dictionary tuples? If any of them
         are this indicates that they are explicit paths through
-        the model.
+        the model (paths with a single entry may be stored as strings).
         """
-        for key in self.kwargs:
-            return isinstance(key, tuple)
-        return False
+        return any(isinstance(key, tuple) for key in self.kwargs)
 
     def subsample(self, path_map):
         arg_dict = {}
@@ -197,7 +224,10 @@ class Sample:
         try:
             if self.is_path_kwargs:
                 return model.instance_from_path_arguments(
-                    self.kwargs,
+                    {
+                        key if isinstance(key, tuple) else (key,): value
+                        for key, value in self.kwargs.items()
+                    },
                     ignore_assertions=ignore_assertions,
                 )
             else:
